@@ -43,6 +43,9 @@ for t in texts:
             best = -2.0
             over += 1
             break
+        except RecursionError:
+            best = -4.0            # nested deeper than the interpreter's recursion limit: tolerated (C06), nothing to time
+            break
         except Exception:
             best = -1.0
             break
